@@ -1,5 +1,5 @@
-"""C02 - four structural clauses of "verify accepts exactly the well-formed documents":
-(a) token table, (b) shortest form / length range, (c) nesting counters, (d) level wipe.
+"""C02 - five structural clauses of "verify accepts exactly the well-formed documents":
+(a) token table, (b) shortest form / length range, (c) nesting counters, (d) level wipe, (e) name ordering applied with the right polarity.
 Language equivalence with the grammar is NOT decided."""
 import json
 import os
@@ -42,6 +42,9 @@ class NestHooks(LibHooks):
                         self.log.append(('depth?', ins.loc(), False, repr(old[2]), repr(val)))
             if off.c == eo and size == esz:
                 c = S.const_of(val.a)
+                if c == 2 and ins.fn.name == '_advance_parsing' and st.tags.get('ordercmp') is not None and not st.tags.get('order_done'):
+                    self.order_event(st, 'reject', ins)
+                    st.tags.pop('ordercmp', None)
                 dcell = (st.cells('P') or {}).get(((do, ()), dsz))
                 md = (st.cells('P') or {}).get(((lay.parser['max_depth'][0], ()), lay.parser['max_depth'][1]))
                 if c == self.E_OBJ:
@@ -49,6 +52,11 @@ class NestHooks(LibHooks):
                     self.log.append(('err-depth-object', ins.loc(), ok))
                 elif c == self.E_ARR:
                     self.log.append(('err-depth-array', ins.loc(), bool(st.tags.get('ad_full'))))
+        if r.name == 'STATE' and isinstance(val, Ptr) and val.region == 'BUF' and ins.fn.name == '_advance_parsing':
+            ef0 = self.elem_field(off)
+            if ef0 is not None and ef0[1] == lay.state['current_name'][0] + lay.bbuf['bptr'][0] and st.tags.get('ordercmp') is not None:
+                self.order_event(st, 'accept', ins)
+                st.tags.pop('ordercmp', None)
         if r.name == 'STATE' and isinstance(val, Int):
             ef = self.elem_field(off)
             if ef is not None and ef[1] == lay.state['array_depth'][0] and size == lay.state['array_depth'][1]:
@@ -65,9 +73,36 @@ class NestHooks(LibHooks):
     def on_load(self, st, r, off, size, ins):
         pass
 
+    # ---- (e) ordering polarity: the previous name of the level is compared with the new one, FORMAT iff not smaller
+    def on_call(self, st, name, args, ins):
+        if name == '_cmp_name' and len(args) == 2:
+            a, b = args
+            prev_vs_new = isinstance(a, Ptr) and a.region == 'STATE' and isinstance(b, Ptr) and b.region.startswith('L')
+            st.tags['cmpargs'] = prev_vs_new
+
+    def on_return(self, st, fn, ret):
+        if fn.name == '_cmp_name':
+            if st.tags.pop('cmpargs', False):
+                st.tags['ordercmp'] = ret
+
+    def at_backedge(self, st, fn, head):
+        LibHooks.at_backedge(self, st, fn, head)
+        st.tags.pop('ordercmp', None)
+
+    def order_event(self, st, what, ins):
+        ret = st.tags.get('ordercmp')
+        if not isinstance(ret, Int):
+            return
+        S = st.store
+        if not all(z in S.ivl for z in ret.a.t):
+            return
+        neg = S.entails_ge0(ret.a.sub(1 << 31))
+        nonneg = S.entails_ge0(ret.a.neg().add((1 << 31) - 1))
+        self.log.append(('order', what, ins.loc(), neg, nonneg))
+
 
 def post(C, fname, label, outs, log):
-    return [x for x in log if x[0] in ('depth++', 'depth--', 'depth?', 'array_depth++', 'array_depth?', 'err-depth-object', 'err-depth-array')]
+    return [x for x in log if x[0] in ('depth++', 'depth--', 'depth?', 'array_depth++', 'array_depth?', 'err-depth-object', 'err-depth-array', 'order')]
 
 
 def setup(C):
@@ -151,10 +186,20 @@ def run(rep, tier):
                 elif e[0] == 'depth--':
                     rep.ob(e[2], '_advance_parsing:WIPE', 'C02(d) the object level being left at %s is not zeroed in full before depth is decremented (current_state %s, %s)' % (e[1], e[3], ctx), '',
                            sample={'leave_at': e[1], 'level_wiped_before': True})
+                elif e[0] == 'order':
+                    _, what, loc, neg, nonneg = e
+                    if what == 'reject':
+                        rep.ob(nonneg, '_advance_parsing:ORDER:reject',
+                               'C02(e) a field is rejected for its name order at %s although the comparison with the previous name is not known to be >= 0 (%s)' % (loc, ctx), '',
+                               sample={'ordering': 'FORMAT only if cmp(previous name, new name) >= 0', 'at': loc})
+                    else:
+                        rep.ob(neg, '_advance_parsing:ORDER:accept',
+                               'C02(e) a new field name is recorded at %s although the comparison with the previous name is not known to be < 0 (%s)' % (loc, ctx), '',
+                               sample={'ordering': 'name accepted only if cmp(previous name, new name) < 0', 'at': loc})
                 elif e[0] == 'err-depth-object':
                     rep.ob(e[2], '_advance_parsing:NEST:errcode', 'C02(c) MAX_DEPTH_OBJECT is stored at %s although the depth limit is not reached (%s)' % (e[1], ctx), '',
                            sample={'error_code': 'MAX_DEPTH_OBJECT', 'stored_at': e[1]})
-        for k in ('depth++', 'depth--', 'array_depth++', 'err-depth-object'):
+        for k in ('depth++', 'depth--', 'array_depth++', 'err-depth-object', 'order'):
             need(cnt.get(k, 0) >= 1, 'C02: no %s event observed' % k)
         # the array-depth error constant is stored at all and only under its guard: resolved-IR rule
         e_arr = C.enums.get('BINSON_ERROR_MAX_DEPTH_ARRAY', 9)
@@ -163,6 +208,9 @@ def run(rep, tier):
         sites = [i for i in adv.instructions() if i.op == 'store' and i.ops[0][1] == ('int', e_arr) and
                  flow.mem_key(adv, i.ops[1][1]) == ('field', 'struct.binson_parser_s', pidx)]
         rep.ob(len(sites) >= 1, '_advance_parsing:NEST:errcode-array', 'C02(c) no path stores MAX_DEPTH_ARRAY', '', sample={'error_code': 'MAX_DEPTH_ARRAY', 'stores': len(sites)})
+        # the comparison itself satisfies its specification relative to memcmp (full length, bytewise, tie-break by length)
+        from props.c07 import cmp_spec
+        rep.coverage['cmp_outcomes'] = cmp_spec(rep, mod, 'C02(e)')
         rep.coverage['events'] = cnt
         rep.coverage['decoder_integer_table'] = {str(w): [[hex(a), hex(b)] for a, b in T.inter_set(pi[w]['accepted'], T.representable(w))] for w in pi}
     rep.coverage.update({
